@@ -143,7 +143,11 @@ class C10(Check):
                 rules.append(('class', 'KA', None, [('field', 'v', ('ref', 'R0'))]))
                 rules.append(('class', 'KB', None, [('field', 'items', ('rep', ('ref', 'KA'), 0, 3)),
                                                    ('field', 'tail', ('opt', ('ref', 'R1')))]))
-                rules.append(('class', 'Start', None, [('field', 'b', ('ref', 'KB')), ('field', 'again', ('opt', ('ref', 'KA')))]))
+                # objects that sit BEHIND plain values in a list, and lists nested in lists
+                rules.append(('rule', 'SeqMixed', None, ('seq', [('opt', ('lit', 'a')), ('ref', 'KA'),
+                                                                  ('seq', [('opt', ('lit', 'b')), ('opt', ('ref', 'KA'))])])))
+                rules.append(('class', 'Start', None, [('field', 'b', ('ref', 'KB')), ('field', 'again', ('opt', ('ref', 'KA'))),
+                                                      ('field', 'm', ('opt', ('ref', 'SeqMixed')))]))
                 g = g.copy(rules=rules)
             # blanks, newlines and other characters that str.splitlines() - but not the statement -
             # treats as line boundaries (they are ordinary ignorable characters here)
